@@ -319,6 +319,9 @@ def check(rep, F, tier, replay=None):
             rep.violation("KEYED-store", "%s.%s" % (b_, fld_), "%s.%s has type `%s`, not a map keyed by %s: adding the same %s twice keeps both entries, the balance sums both, the emitted collection holds one - the built transaction creates or destroys value" % (b_, fld_, ty_[0][:90], key_.rsplit("::", 1)[-1], key_.rsplit("::", 1)[-1]), {})
     from ruleutil import value_sub_total_rule
     value_sub_total_rule(rep, F)
+    from ruleutil import fill_commit_rule
+    n_fc = fill_commit_rule(rep, F, ["src/builders/", "src/lib.rs", "src/utils.rs", "src/protocol_types/"])
+    rep.floor("collections filled per iteration (FILL-commit)", 4, n_fc)
     return rep.finish(
         EXPLANATION,
         ["Value's PartialEq compares lovelace and every asset (treating absent and empty bundles alike) — its algebra is C14's concern",
